@@ -9,15 +9,14 @@ delay is keyed (simkit.chaosnet.KeyedLatency).  Scenario classes (DESIGN.md §5 
   healthy        every message delivered, one-way delay <= 5 % of the probe
                  interval, seeded probe orders, staggered starts          -> accuracy
   failure        same network, one member crashed for good at a generated
-                 instant *after* every live node has heard from it        -> completeness
-  failure-early  same, crash instant anywhere (also before first contact) -> completeness
+                 instant (anywhere: t=0, before first contact, much later) -> completeness
   flap           one member down for a long window, then restarted (its
                  protocol is started again)                               -> DEAD never reverts
   phi            PhiAccrualDetector alone on a generated heartbeat history -> monotone phi
 
-`failure` is the avoidance class of the recorded finding
-"crash-detected/…/never-heard-from-victim" (see known/C13.json): its trigger (a
-live node that never received a ping/ack from the victim) cannot occur there.
+(Until fix dfba083 the failure class was split into `failure` / `failure-early` to
+dodge the recorded finding "crash-detected/…/never-heard-from-victim"; see
+checks/c13.fixed.json.  The class name `failure-early` is still accepted in replays.)
 """
 from __future__ import annotations
 
@@ -39,14 +38,14 @@ from simkit.rng import seed_globals  # noqa: E402
 from simkit.world import InvalidScenario, Monitor, Violation, repo_exception_sig, result, run_sim  # noqa: E402
 
 PROPERTY = "C13"
-RUNS = {"quick": 1600, "thorough": 120_000}
+RUNS = {"quick": 2000, "thorough": 120_000}
 WALL = {"quick": 55, "thorough": 1500}
 BATCH = {"quick": 20, "thorough": 100}
 SELFTEST_RUNS = 8
 RULE = (
     "each case is a generated cluster of 3-9 real MembershipProtocol nodes (probe interval, suspicion timeout, "
     "indirect count, phi threshold, per-link keyed delays <= 5% of the probe interval, staggered start instants all "
-    "generated) in one of the classes healthy / failure / failure-early / flap, or a generated heartbeat history "
+    "generated) in one of the classes healthy / failure / flap, or a generated heartbeat history "
     "for a lone PhiAccrualDetector (class phi); non-trivial = every live node completed >= 2 full probe cycles "
     "(cluster classes; for failure classes additionally the crash fired and the detection deadline lay inside the "
     "horizon) or >= 3 heartbeats and >= 20 grid points (phi); distinct = distinct delivery digests (cluster) / "
@@ -75,7 +74,8 @@ ASSUMPTIONS = [
 EXPECTED_PROBES = ["probe.live_member_suspected", "probe.suspect_revived", "probe.indirect_path_taken",
                    "probe.victim_declared_dead", "probe.dead_learned_by_gossip", "probe.victim_only_suspect_at_deadline",
                    "probe.never_heard_pair", "probe.dead_member_spoke_again", "probe.phi_reached_inf",
-                   "probe.same_target_probed_twice_in_a_row", "fault.crash", "fault.restart"]
+                   "probe.same_target_probed_twice_in_a_row", "probe.suspected_on_missed_ack",
+                   "probe.never_heard_member_suspected", "fault.crash", "fault.restart"]
 SHRINK_SKIP = ("klass",)
 
 _ST = {MemberState.ALIVE: "A", MemberState.SUSPECT: "S", MemberState.DEAD: "D"}
@@ -109,7 +109,9 @@ def gen(rng, tier):
     r = rng.random()
     if r < 0.12:
         return _gen_phi(rng)
-    klass = "healthy" if r < 0.45 else "failure" if r < 0.65 else "failure-early" if r < 0.85 else "flap"
+    # "failure-early" was split off while the never-heard defect was recorded; since fix dfba083 it is folded back:
+    # one failure class, crash instant anywhere (the name is still accepted for the committed replay)
+    klass = "healthy" if r < 0.42 else "failure" if r < 0.82 else "flap"
     n = rng.choice([3, 3, 4, 5, 5, 6, 7, 9])
     p = rng.choice([0.2, 0.5, 1.0, 1.0, 2.0])
     sus = round(p * rng.choice([0.5, 1, 2, 3, 5, 8]), 4)
@@ -133,12 +135,9 @@ def gen(rng, tier):
         sc["horizon"] = round(p * rng.choice([30, 60, 120, 200]), 4)
     elif klass in ("failure", "failure-early"):
         sc["victim"] = rng.randrange(n)
-        if klass == "failure":
-            # after every node has certainly probed every other node once: max start + (2N-1) rounds
-            lo = max(starts) + (2 * n - 1) * p
-            sc["crash_t"] = round(lo + rng.uniform(0, 20 * p), 6)
-        else:
-            sc["crash_t"] = round(rng.choice([0.0, rng.uniform(0, 2 * p), rng.uniform(0, (2 * n) * p)]), 6)
+        lo = max(starts) + (2 * n - 1) * p  # by then every node has certainly probed every other node once
+        sc["crash_t"] = round(rng.choice([0.0, rng.uniform(0, 2 * p), rng.uniform(0, (2 * n) * p),
+                                          lo + rng.uniform(0, 20 * p), lo + rng.uniform(0, 20 * p)]), 6)
         sc["horizon"] = round(sc["crash_t"] + dl + rng.choice([5, 20]) * p, 4)
     else:  # flap
         sc["victim"] = rng.randrange(n)
@@ -277,9 +276,6 @@ def _validate(sc):
     if sc["klass"] != "healthy":
         if not 0 <= sc.get("victim", -1) < n or sc.get("crash_t", -1) < 0:
             raise InvalidScenario("victim")
-    if sc["klass"] == "failure":
-        if sc["crash_t"] < max(sc["starts"]) + (2 * n - 1) * p:
-            raise InvalidScenario("failure class requires first contact before the crash")
     if sc["klass"] == "flap" and sc.get("restart_t", 0) <= sc["crash_t"]:
         raise InvalidScenario("restart")
     if sc.get("horizon", 0) <= 0 or sc["horizon"] > 4000:
@@ -340,7 +336,8 @@ def run(sc):
     view = {x.name: {m: ("A", 0) for m in by_name if m != x.name} for x in nodes}
     pr = {"live_member_suspected": 0, "suspect_revived": 0, "victim_declared_dead": 0, "dead_learned_by_gossip": 0,
           "victim_only_suspect_at_deadline": 0, "never_heard_pair": 0, "dead_member_spoke_again": 0,
-          "same_target_probed_twice_in_a_row": 0, "phi_samples": 0}
+          "same_target_probed_twice_in_a_row": 0, "phi_samples": 0, "suspected_on_missed_ack": 0,
+          "never_heard_member_suspected": 0}
     last_probe = {}
     past_deadline_checked = [False]
     phi_track = {}  # observer -> (heartbeat count, last phi, last t) for the victim's detector after the crash
@@ -373,6 +370,10 @@ def run(sc):
                                 f"(class {klass}; every message delivered within {dmax:.6f}s = {dmax / p:.3%} of the probe interval)")
             if st == "S" and is_live(m, now):
                 pr["live_member_suspected"] = 1
+            if st == "S" and old == "A" and ev.event_type == "MembershipIndirectPing":
+                pr["suspected_on_missed_ack"] = 1
+                if info.detector.last_heartbeat is None:
+                    pr["never_heard_member_suspected"] = 1
             if old == "S" and st == "A":
                 pr["suspect_revived"] = 1
             if st == "D" and m == vname:
@@ -452,7 +453,7 @@ def run(sc):
             sig = f"C13/{sig}"
     budget = int(status == "budget")  # not a verdict; counted, and the run is not "non-trivial"
     # never-heard probe (failure-early): some live node had no contact before the crash
-    if klass == "failure-early":
+    if klass in ("failure", "failure-early"):
         for x in nodes:
             if x.name != vname and x._members[vname].detector.last_heartbeat is None:
                 pr["never_heard_pair"] = 1
